@@ -69,12 +69,12 @@ def np_loglik_terms(dist, levels, scale, y, mu, w):
 def np_loglik(dist, levels, scale, y, mu, w, poisson_gam):
     if poisson_gam:
         y = np.round(y * w)
-    return float(np.sum(np_loglik_terms(dist, levels, scale, y, mu, w)))
+    return np.float64(np.sum(np_loglik_terms(dist, levels, scale, y, mu, w)))
 
 
 def np_total_dev(dist, levels, y, mu, w):
     with np.errstate(all='ignore'):
-        return float(np.sum(w * fitgen.np_deviance(dist, levels, y, mu)))
+        return np.float64(np.sum(w * fitgen.np_deviance(dist, levels, y, mu)))
 
 
 def np_pinv_sym(C):
@@ -227,12 +227,13 @@ def _worker(case):
         orc['covB_qr'] = Bm2 @ Bm2.T
     except Exception:  # noqa
         orc['covB_qr'] = np.full((m, m), np.nan)
-    edof = impl['edof']
+    edof = np.float64(impl['edof'])
+    ll_i = np.float64(impl['ll'])
     with np.errstate(all='ignore'):
-        pear = float(np.sum(wv * (yv - mu) ** 2 / fitgen.np_V(dist, levels, mu)))
-        scale_o = float(known) if known is not None else pear / (n - edof)
+        pear = np.float64(np.sum(wv * (yv - mu) ** 2 / fitgen.np_V(dist, levels, mu)))
+        scale_o = np.float64(known) if known is not None else pear / (n - edof)
         orc['scale'] = scale_o
-        sc = impl['scale']       # the scale the remaining formulas are documented in terms of
+        sc = np.float64(impl['scale'])       # the scale the remaining formulas are documented in terms of
         ll_o = np_loglik(dist, levels, sc, yv, mu, wv, poisson_gam)
         mu0 = np.full(n, yv.mean())
         ll0_o = np_loglik(dist, levels, sc, yv, mu0, wv, poisson_gam)
@@ -240,18 +241,18 @@ def _worker(case):
         D0 = np_total_dev(dist, levels, yv, mu0, wv)
         orc.update(ll=ll_o, ll0=ll0_o, D=D, D0=D0)
         est = known is None
-        aic = -2 * impl['ll'] + 2 * edof + (2 if est else 0)
+        aic = -2 * ll_i + 2 * edof + (2 if est else 0)
         orc['AIC'] = aic
         orc['AICc_corr'] = 2 * (edof + 1) * (edof + 2) / (n - edof - 2)
         orc['AICc'] = aic + orc['AICc_corr']
         orc['GCV'] = (n * D / (n - GAMMA * edof) ** 2) if est else None
         orc['UBRE'] = None if est else (D / n + 2 * GAMMA * edof * sc / n)
         orc['explained'] = 1 - D / D0
-        orc['mcf'] = 1 - impl['ll'] / ll0_o
-        orc['mcfadj'] = 1 - (impl['ll'] - edof) / ll0_o
+        orc['mcf'] = 1 - ll_i / ll0_o
+        orc['mcfadj'] = 1 - (ll_i - edof) / ll0_o
         orc['deviance'] = D / sc
-        orc['dtol'] = 1e-8 * abs(D) + 1e-11 * float(np.sum(wv * (np.abs(yv) + np.abs(mu) + 1)))
-        orc['d0tol'] = 1e-8 * abs(D0) + 1e-11 * float(np.sum(wv * (np.abs(yv) + np.abs(mu0) + 1)))
+        orc['dtol'] = 1e-8 * abs(D) + 1e-11 * np.float64(np.sum(wv * (np.abs(yv) + np.abs(mu) + 1)))
+        orc['d0tol'] = 1e-8 * abs(D0) + 1e-11 * np.float64(np.sum(wv * (np.abs(yv) + np.abs(mu0) + 1)))
     res['ll0'] = ll0_o
 
     # ---------------- Wald p-values: inputs for the model + independent recomputation
@@ -334,9 +335,9 @@ def _worker(case):
             dv = we_ * fitgen.np_deviance(dist, levels, ye, mue)
             ent['r0_o'] = np.sign(ye - mue) * np.sqrt(dv)
             ent['r1_o'] = np.sign(ye - mue) * np.sqrt(dv / impl['scale'])
-            De, D0e = float(np.sum(dv)), np_total_dev(dist, levels, ye, mu0e, we_)
+            De, D0e = np.float64(np.sum(dv)), np_total_dev(dist, levels, ye, mu0e, we_)
             ent['expl_o'] = 1 - De / D0e
-            ent['expl_tol'] = 1e-8 * (1 + abs(De / D0e)) + (1e-8 * abs(De) + 1e-11 * float(np.sum(we_ * (np.abs(ye) + np.abs(mue) + 1)))) / abs(D0e) * (1 + abs(De / D0e))
+            ent['expl_tol'] = 1e-8 * (1 + abs(De / D0e)) + (1e-8 * abs(De) + 1e-11 * np.float64(np.sum(we_ * (np.abs(ye) + np.abs(mue) + 1)))) / abs(D0e) * (1 + abs(De / D0e))
             ent['acc_o'] = float(np.mean((mue > 0.5).astype(float) == ye))
             ent['mag'] = we_ * (np.abs(ye) + np.abs(mue) + 1)
         evals.append(ent)
@@ -366,19 +367,20 @@ def _close(a, b, tol):
 def _scalar_tols(r):
     """tolerances of the closed-form statistics (1e-8 relative to the size of the parts they are computed from)"""
     I, O = r['impl'], r['orc']
-    n = r['n']
-    edof, sc = I['edof'], I['scale']
+    n = np.float64(r['n'])
+    edof, sc = np.float64(I['edof']), np.float64(I['scale'])
+    ll = np.float64(I['ll'])
     with np.errstate(all='ignore'):
         t = {}
         t['scale'] = 1e-8 * abs(O['scale'])
-        t['AIC'] = 1e-8 * (abs(2 * I['ll']) + 2 * abs(edof) + 2)
+        t['AIC'] = 1e-8 * (abs(2 * ll) + 2 * abs(edof) + 2)
         t['AICc'] = t['AIC'] + 1e-8 * abs(O['AICc_corr'])
         t['GCV'] = None if O['GCV'] is None else 1e-8 * abs(O['GCV']) + n * O['dtol'] / (n - GAMMA * edof) ** 2
         t['UBRE'] = None if O['UBRE'] is None else 1e-8 * (abs(O['D']) / n + abs(2 * GAMMA * edof * sc / n)) + O['dtol'] / n
         q = abs(O['D'] / O['D0']) if O['D0'] else float('inf')
         t['explained'] = 1e-8 * (1 + q) + (O['dtol'] + q * O['d0tol']) / abs(O['D0']) if O['D0'] else 0.0
-        t['mcf'] = 1e-8 * (1 + abs(I['ll'] / O['ll0'])) if O['ll0'] else 0.0
-        t['mcfadj'] = 1e-8 * (1 + abs((I['ll'] - edof) / O['ll0']) + abs(edof / O['ll0'])) if O['ll0'] else 0.0
+        t['mcf'] = 1e-8 * (1 + abs(ll / O['ll0'])) if O['ll0'] else 0.0
+        t['mcfadj'] = 1e-8 * (1 + abs((ll - edof) / O['ll0']) + abs(edof / O['ll0'])) if O['ll0'] else 0.0
         t['deviance'] = 1e-8 * abs(O['deviance']) + O['dtol'] / abs(sc)
     for k_, v in t.items():
         if v is not None and not np.isfinite(v):
